@@ -1,0 +1,57 @@
+//go:build verif
+
+// Machine-checked contracts for this package (comment-only; compiled only with -tags verif,
+// and even then contributes no code).  Read by /verif/govc; see /verif/DESIGN.md.
+
+package dedupebuffer
+
+//@ -- ---------------------------------------------------------------- C25: reconnecting to Typha
+//@ -- (thin; the set.Set and container/list operations are abstract calls, only their use is constrained)
+//@ -- * a restart drops every queued update and snapshots the keys already sent downstream
+//@ -- * every update received during a resync is struck off that snapshot and queued under its own key
+//@ -- * once in sync, whatever is left in the snapshot is turned into a deletion (value nil) for that key, and the
+//@ --   snapshot is dropped
+//@ -- * a queued value is labelled "updated" exactly when downstream already holds the key, else "new"
+//@ -- * what downstream holds is adjusted per update actually pulled off the queue: added for a value, dropped for a
+//@ --   deletion
+//@ ghost c25Snap bool
+//@ ghost c25Struck bool
+//@ ghost c25Live bool
+//@ func (*DedupeBuffer).OnTyphaConnectionRestarted
+//@   property C25
+//@   option safety off
+//@   option stable (*DedupeBuffer).keyToPendingUpdate, map[model.Key]*list.Element, (*DedupeBuffer).liveResourceKeys
+//@   requires d != nil && !c25Snap
+//@   ghost at call Copy: check arg0 == old(d.liveResourceKeys) ; c25Snap = true
+//@   ensures c25Snap
+//@   ensures forall k model.Key :: !(k in d.keyToPendingUpdate)
+//@ func (*DedupeBuffer).OnUpdates
+//@   property C25
+//@   option safety off
+//@   option callpre off
+//@   option stable (*DedupeBuffer).liveKeysNotSeenSinceReconnect
+//@   requires d != nil && !c25Struck
+//@   ghost at call Discard: check arg0 == old(d.liveKeysNotSeenSinceReconnect) && arg1 == u.KVPair.Key ; c25Struck = true
+//@   ghost at call queueUpdate: check arg1 == u.KVPair.Key && arg2.KVPair.Key == u.KVPair.Key ; check old(d.liveKeysNotSeenSinceReconnect) != nil ==> c25Struck ; c25Struck = false
+//@   loop 1 invariant !c25Struck
+//@ func (*DedupeBuffer).onInSyncAfterReconnection$1
+//@   property C25
+//@   option safety off
+//@   ensures (*d).liveKeysNotSeenSinceReconnect == nil
+//@ func (*DedupeBuffer).queueUpdate
+//@   property C25
+//@   option safety off
+//@   requires d != nil
+//@   ghost at call Contains#1: check arg0 == old(d.liveResourceKeys) && arg1 == key ; c25Live = res
+//@   ghost at call PushBack: check cast(arg1, updateWithKey).key == key ; check u.KVPair.Value != nil ==> cast(arg1, updateWithKey).update.UpdateType == (c25Live ? api.UpdateTypeKVUpdated : api.UpdateTypeKVNew) ; check cast(arg1, updateWithKey).update.KVPair.Value == u.KVPair.Value
+//@ func (*DedupeBuffer).pullNextBatch
+//@   property C25
+//@   option safety off
+//@   ghost at call Discard: check arg0 == old(d.liveResourceKeys) && arg1 == key && u.update.KVPair.Value == nil
+//@   ghost at call Add: check arg0 == old(d.liveResourceKeys) && arg1 == key && u.update.KVPair.Value != nil
+//@ -- (body of the loop over the keys not seen during the resync)
+//@ func (*DedupeBuffer).onInSyncAfterReconnection$2
+//@   property C25
+//@   option safety off
+//@   option callpre off
+//@   ghost at call queueUpdate: check arg1 == key && arg2.KVPair.Key == key && arg2.KVPair.Value == nil && arg2.UpdateType == api.UpdateTypeKVDeleted
